@@ -295,7 +295,8 @@ def run_shard(spec):
             acc.extra.setdefault("inconclusive_cases", []).append(r[1])
         if i < 2:
             acc.samples.append({"P": case["P"], "bodies": case["bodies"][:12], "use_with": case["use_with"]})
-    if acc.events.get("case-inconclusive", 0) > spec["n"] // 10:
+    if acc.events.get("case-inconclusive", 0) > spec["n"] // 3:
+        # the simulator lost too many wake-ups (heavily loaded machine): the shard says so instead of guessing
         raise RuntimeError(f"too many inconclusive threaded runs: {acc.extra.get('inconclusive_cases')[:3]}")
     return acc.result()
 
